@@ -26,6 +26,9 @@ def inl(F, b):
     keep = [p for p in F.bodies if p.startswith((KA + "backoff_strategy", KA + "connection_status", KA + "helpers", "<" + KA + "backoff_strategy", "selium::logging",
                                                  "selium::connection", "selium::streams"))
             or ("backoff_strategy" in p and p.startswith("<"))]
+    # of the connection-status module only the constructors are vocabulary; accessor-style methods (next_attempt, poll_attempt ..) that
+    # wrap a field of the reconnect state are looked through
+    keep = [p for p in keep if not ("connection_status" in p and p.split("::{")[0].rsplit("::", 1)[-1] not in ("disconnected", "from", "new", "default", "into"))]
     return F.inlined(b, keep=keep)
 
 
